@@ -779,9 +779,11 @@ class _Bare(C):
 
 for inp, stubs, bind in cases:
     obj = C.__new__(_Bare)
+    held = {}
     for k, v in inp.items():
         if k.startswith("self."):
-            object.__setattr__(obj, k[5:], copy.deepcopy(v))
+            held[k] = copy.deepcopy(v)
+            object.__setattr__(obj, k[5:], held[k])
     for mname, src in stubs.items():
         object.__setattr__(obj, mname, (lambda a: (lambda *x, **y: a.copy()))(inp[src]))
     kwargs = {}
@@ -794,7 +796,10 @@ for inp, stubs, bind in cases:
     try:
         with np.errstate(all="ignore"):
             r = F(**kwargs) if is_static else F(obj, **kwargs)
-        res.append({"ok": True, "result": r, "after": {k: getattr(obj, k[5:]) for k in inp if k.startswith("self.")}})
+        # contents of the array OBJECTS that were handed in (a field rebound to another array is not a write)
+        after = {k: v for k, v in held.items() if isinstance(v, np.ndarray)}
+        after.update({k: v for k, v in kwargs.items() if isinstance(v, np.ndarray) and k in inp})
+        res.append({"ok": True, "result": r, "after": after})
     except BaseException as e:
         res.append({"ok": False, "error": f"{type(e).__name__}: {e}"})
 pickle.dump({"res": res}, open(out_path, "wb"))
@@ -889,9 +894,8 @@ def run_rtc_py(job, src_dir, count=12, seed=0, extra_inputs=()):
                     env_in[k] = v
             env_in["self"] = selfobj
             env_in.update(bind)
-            for clause, st, detail in check_case(c, env_in, {}, r["result"]):
-                if clause.startswith("(frame)"):
-                    continue
+            after_in = {k: v for k, v in r.get("after", {}).items() if not k.startswith("self.")}
+            for clause, st, detail in check_case(c, env_in, after_in, r["result"]):
                 if st == "skipped":
                     out["skipped"][clause] = detail
                     continue
